@@ -243,6 +243,9 @@ type runOpts struct {
 	Subjects []string `json:"subjects"`
 	Limit    int      `json:"limit"`  // v2 concurrency limit
 	Sample   int      `json:"sample"` // server-level run for 1 in Sample uninteresting requests
+	Planned  bool        `json:"planned"` // Faults / Seqs below were chosen (replays reuse them)
+	Faults   []faultPlan `json:"faults,omitempty"`
+	Seqs     []seqPlan   `json:"seqs,omitempty"`
 }
 
 var strategies = [][]string{{"default"}, {"weight2"}, {"recursive"}}
@@ -417,6 +420,8 @@ func runScenario(ctx context.Context, w *rec.Writer, r *rec.Rand, s *scen.Scenar
 	defer srv.Close()
 
 	var svs []rec.V
+	var obsList []reqObs
+	obsMap := map[string]reqObs{}
 	for _, sub := range ro.Subjects {
 		var pxs []rec.V
 		for _, p := range env.PathX(sub) {
@@ -525,6 +530,11 @@ func runScenario(ctx context.Context, w *rec.Writer, r *rec.Rand, s *scen.Scenar
 				}
 				w.Stat("detector_check_"+reasonNames[rsnCheck], 1)
 				w.Stat("detector_exclusion_"+reasonNames[rsnExcl], 1)
+				if v1c != cV1Invalid && v1c != cTimeout {
+					ob := reqObs{Obj: o, Rel: rd.Name, User: sub, Kind: kind, V1: v1c, V2: [3]int{v2c[0], v2c[1], v2c[2]}}
+					obsList = append(obsList, ob)
+					obsMap[o+"#"+rd.Name+"@"+sub] = ob
+				}
 				a, b := in.Obj(o)
 				res = append(res, rec.L(a, b, rec.I(in.R(rd.Name)), rec.I(v1c), rec.I(out1),
 					rec.I(v2c[0]), rec.I(v2c[1]), rec.I(v2c[2]), rec.I(fbFinal), rec.I(fbTaken),
@@ -545,6 +555,21 @@ func runScenario(ctx context.Context, w *rec.Writer, r *rec.Rand, s *scen.Scenar
 	for name, n := range fbPlanner.Seen {
 		w.Stat("fallback_variant_selected_"+name, n)
 	}
+	// fault injection and cached mode (faults.go)
+	var faultv, cachedv []rec.V
+	if mgErr == nil {
+		if !ro.Planned {
+			ro.Planned = true
+			if len(cyctv) < 2 {
+				ro.Faults = planFaults(ctx, r, env, s, mg, ro.Limit, obsList)
+			}
+			if len(cycv) == 0 && len(cyctv) == 0 {
+				ro.Seqs = planSeqs(r, s, obsList)
+			}
+		}
+		faultv = runFaults(ctx, w, in, env, s, mg, ro.Limit, ro.Faults, obsMap)
+		cachedv = runSeqs(ctx, w, in, env, s, mg, ro.Limit, ro.Seqs, obsMap)
+	}
 	mgok := 1
 	if mgErr != nil {
 		mgok = 0
@@ -555,7 +580,7 @@ func runScenario(ctx context.Context, w *rec.Writer, r *rec.Rand, s *scen.Scenar
 	}
 	w.Case(map[string]any{"scenario": s, "opts": ro, "text": s.String(),
 		"names": map[string]any{"t": in.TypeNames, "r": in.RelNames, "i": in.IDNames}},
-		rec.I(1), model, conds, rec.L(tvs...), atoms, rec.I(maxDepth), rec.I(mgok), rec.I(backend), rec.L(cycv...), rec.L(cyctv...), rec.L(svs...))
+		rec.I(1), model, conds, rec.L(tvs...), atoms, rec.I(maxDepth), rec.I(mgok), rec.I(backend), rec.L(cycv...), rec.L(cyctv...), rec.L(svs...), rec.L(faultv...), rec.L(cachedv...))
 }
 
 func main() {
